@@ -9,6 +9,7 @@ import CheetahModel.DriverSer
 import CheetahModel.DriverText
 import CheetahModel.DriverNx
 import CheetahModel.DriverRev
+import CheetahModel.DriverNml
 /-!
 # Line-protocol driver
 
@@ -43,6 +44,10 @@ def handle (line : String) : String :=
     match DrvText.run rest with
     | some out => out
     | none => "ERR txt-parse"
+  | "nml" :: rest =>
+    match DrvNml.run rest with
+    | some out => out
+    | none => "ERR nml-parse"
   | "rev" :: rest =>
     match DrvRev.run rest with
     | some out => out
